@@ -104,6 +104,10 @@ template <class T> void corrGraph(Ctx& c, int reps) {
             const std::string hex = ser.buffer().empty() ? "-" : ser.hex();
             c.sink->emit("serial.gpack " + ty + " " + Codec<T>::show(x, false),
                          "wt=1 " + std::to_string(ser.buffer().size()) + " " + hex);
+            if (ser.position() != ser.buffer().size()) {      // PACKSIZE != PACK: the buffer is not a packed object, unpacking it is UB
+                c.sink->emit("serial.gunpack " + ty + " " + hex, "pack-position " + std::to_string(ser.position()));
+                continue;
+            }
             {
                 T y{};
                 ser.unpack(y);
@@ -141,13 +145,17 @@ template <class T> void propGraph(Ctx& c, int reps) {
             ser.pack(x);
             const std::vector<char> buf = ser.buffer();
             const size_t posPack = ser.position();
+            const std::string key = "combinator." + ty;
+            if (posPack != buf.size()) {     // not a packed object: do not unpack it (UB)
+                c.plog->fail(key, "PACK left position " + std::to_string(posPack) + " in a buffer of " + std::to_string(buf.size()) + " (PACKSIZE disagrees with PACK) value=" + showLabelled(x));
+                c.pstats["combinator"]++; c.pstats["combinator.graph"]++;
+                continue;
+            }
             T y{};
             ser.unpack(y);
             const size_t posUnpack = ser.position();
             const std::string sx = showLabelled(x), sy = showLabelled(y);
-            const std::string key = "combinator." + ty;
-            if (posPack != buf.size()) c.plog->fail(key, "PACK left position " + std::to_string(posPack) + " in a buffer of " + std::to_string(buf.size()) + " (PACKSIZE disagrees with PACK) value=" + sx);
-            else if (posUnpack != buf.size()) c.plog->fail(key, "UNPACK consumed " + std::to_string(posUnpack) + " of " + std::to_string(buf.size()) + " bytes value=" + sx);
+            if (posUnpack != buf.size()) c.plog->fail(key, "UNPACK consumed " + std::to_string(posUnpack) + " of " + std::to_string(buf.size()) + " bytes value=" + sx);
             else if (sx != sy) c.plog->fail(key, "object graph differs after round trip (labels = pointer identity): packed " + sx + " unpacked " + sy);
             else {
                 Packer p2; Ser ser2(p2);
@@ -205,7 +213,8 @@ template <class T> void propGraph(Ctx& c, int reps) {
     X(std::map<std::string, std::unique_ptr<int>>) X(std::map<std::size_t, std::set<std::string>>) X(std::map<std::tuple<int, std::string>, int>) \
     X(std::unordered_map<std::string, double>) X(std::unordered_map<int, std::vector<std::string>>) X(std::unordered_map<std::string, std::map<std::string, int>>) \
     X(std::vector<std::map<std::string, int>>) X(std::array<std::set<int>, 2>) X(std::pair<std::set<int>, std::unique_ptr<std::map<int, int>>>) \
-    X(Rec) X(std::vector<Rec>) X(std::map<std::string, Rec>) X(std::optional<Rec>) X(std::unique_ptr<Rec>) X(Outer) X(std::vector<Outer>)
+    X(Rec) X(std::vector<Rec>) X(std::map<std::string, Rec>) X(std::optional<Rec>) X(std::unique_ptr<Rec>) X(Outer) X(std::vector<Outer>) \
+    X(Preset) X(std::vector<Preset>) X(std::map<int, Preset>)
 
 } // namespace
 
